@@ -55,3 +55,34 @@ package cache
 
 //@ extern (*sync/atomic.Int64).Add(a, d)
 //@   pure
+
+// sync.Mutex: the only mutex locked by functions under contract is diskCache.mu,
+// which protects diskCache.lru. Lock/Unlock carry the lock invariant (DESIGN 2.8):
+// acquiring the lock forgets everything known about the protected state and
+// assumes the invariant; releasing it has to re-establish the invariant.
+// `locked` is a per-goroutine ghost; `held` are the bytes reserved by the current
+// invocation (rely: other goroutines never release our reservation).
+//@ ghost locked Bool
+//@ ghost held Int
+//@ pred lruOf(m) = fieldowner(m, "disk.diskCache", "mu").lru
+//@ modset lruState(l) = l.currentSize, l.reservedSize, l.uncompressedSize, l.totalDiskSizePeak, l.ll.seq, mapof(l.cache),
+//@    #list.Element.owner, #list.Element.Value, #disk.lruItem.size, #disk.lruItem.sizeOnDisk, #disk.lruItem.legacy, #disk.lruItem.random, #disk.entry.key, evq, qobs
+
+//@ extern (*sync.Mutex).Lock(m)
+//@   requires nodeadlock: !locked
+//@   modifies locked, lruState(lruOf(m))
+//@   ensures locked
+//@   ensures lruInv(lruOf(m)) && lruOf(m).reservedSize >= held
+
+//@ extern (*sync.Mutex).Unlock(m)
+//@   requires islocked: locked
+//@   requires inv: lruInv(lruOf(m))
+//@   requires guarantee: lruOf(m).reservedSize >= held
+//@   modifies locked
+//@   ensures !locked
+
+// cache.Proxy: a backend is fully nondeterministic. The only thing recorded is
+// what it answered (ghost events), so that callers' contracts can refer to it.
+//@ iface (github.com/buchgr/bazel-remote/v2/cache.Proxy).Contains(p, ctx, kind, hash, size)
+//@   gmodifies pxN, pxFound, pxSize
+//@   gensures pxN == old(pxN) + 1 && pxFound == result0 && pxSize == result1
